@@ -40,6 +40,7 @@ def main():
     wt, v = a.wt, a.variant
     patch = a.patch or os.path.join(wt, "MUTANT", f"patch_{v}.diff")
     sh("git checkout -- httpcore scripts", wt)
+    sh("git checkout -q --detach $(git -C /repo rev-parse HEAD)", wt)   # follow fix: commits made in /repo
     out = {}
     try:
         if a.confirm:
